@@ -162,9 +162,9 @@ func c12Counts(tier string) int64 {
 
 func init() {
 	Register(&Prop{
-		ID:   "C12",
-		Rule: "workspaces of 2-5 files (main.journal root, include directives chosen per content variant) whose files are journals from G drawn from shared account/payee/commodity/tag pools; update sequences of length <= 8, each replacing one file on disk by another variant (other entries and possibly another include list: edges added/removed, files becoming unreachable/reachable again) followed by Workspace.UpdateFile. After EVERY step the incremental workspace is compared with a fresh workspace + fresh loader initialised on the same disk state: member files, accounts (+by prefix), payees, commodities, tags, tag values, dates, all count maps, tag-value counts, transaction index (per key the multiset of file+range), declared accounts/commodities, commodity formats; payee templates must be one of the templates a member file provides. Getters are called after every step, so caches are warm before the next update. Non-trivial = sequence with >=1 update that changes an include list; distinct by hash of the sequence.",
-		Notes: []string{"where a fresh initialisation is itself ambiguous (same payee with different templates in two files) any member file's template is accepted", "files are rendered from the clean pool of G (C03 findings excluded)"},
+		ID:          "C12",
+		Rule:        "workspaces of 2-5 files (main.journal root, include directives chosen per content variant) whose files are journals from G drawn from shared account/payee/commodity/tag pools; update sequences of length <= 8, each replacing one file on disk by another variant (other entries and possibly another include list: edges added/removed, files becoming unreachable/reachable again) followed by Workspace.UpdateFile. After EVERY step the incremental workspace is compared with a fresh workspace + fresh loader initialised on the same disk state: member files, accounts (+by prefix), payees, commodities, tags, tag values, dates, all count maps, tag-value counts, transaction index (per key the multiset of file+range), declared accounts/commodities, commodity formats; payee templates must be one of the templates a member file provides. Getters are called after every step, so caches are warm before the next update. Non-trivial = sequence with >=1 update that changes an include list; distinct by hash of the sequence.",
+		Notes:       []string{"where a fresh initialisation is itself ambiguous (same payee with different templates in two files) any member file's template is accepted", "files are rendered from the clean pool of G (C03 findings excluded)"},
 		Cases:       c12Counts,
 		MustObserve: []string{"updates", "views_compared", "updates_changing_includes"},
 		Setup:       func(c *Ctx) { c.State = c.Known.BadFeatureSets("C03", "C12") },
